@@ -47,6 +47,7 @@ def run(ctx):
         c12.r123_seed_wiring(ctx, sc_)
     from ..statrules import memo_soundness
     memo_soundness(ctx, 'R13.8', ['streams'])
+    r139_virtual_fallback(ctx)
     from ..statrules import shared_class_state
     shared_class_state(ctx, 'R13.6', sorted(c for c, ci in prog.classes.items() if ci.module.name == 'streams'),
                        'the seed a stream receives depends on what other experiments / updaters in the same process configured, not only on its name, '
@@ -361,3 +362,51 @@ def r137_live_table(ctx, impls):
                             f'afterwards is ignored (the stream gets the fallback / stale seed, replication numbers are checked against the old list), so the seed no longer '
                             f'depends only on the configured list', where=f'{c}.__init__')
     ctx.floor('R13.7', 'seed tables kept by updaters', n, 1)
+
+
+def r139_virtual_fallback(ctx):
+    """Streams without a seed list are served by *the installed* fallback updater: its update_seed is called, whatever class it is.  A
+    short-cut that calls the helper a stock class delegates to is the same thing only for objects of exactly that class (`type(x) is C`);
+    under `isinstance(x, C)` it also by-passes the update_seed of every subclass of C."""
+    prog = ctx.prog
+    ctx.rule('R13.9', 'the fallback updater is reached through update_seed (dynamic dispatch); a short-cut to an implementation helper is taken for the exact class only')
+    n = 0
+    # read in the source as written: inlining the helper would hide the delegation this rule is about
+    mod = prog.modules['streams']
+    raw = ast.parse(mod.src)
+    raw_classes = {c.name: c for c in raw.body if isinstance(c, ast.ClassDef)}
+
+    class _OC:
+        def __init__(self, name):
+            self.name = name
+    fns = [(prog.classes.get(c.name), f) for c in raw_classes.values() for f in c.body if isinstance(f, ast.FunctionDef)]
+    for oc, fn in fns:
+        for st in walk_shallow(fn):
+            if not (isinstance(st, ast.If) and isinstance(st.test, ast.Call) and unparse(st.test.func) == 'isinstance' and len(st.test.args) == 2
+                    and isinstance(st.test.args[1], ast.Name) and st.test.args[1].id in prog.classes and st.orelse):
+                continue
+            x = unparse(st.test.args[0])
+            C = st.test.args[1].id
+            fast = [c for b in st.body for c in ast.walk(b) if isinstance(c, ast.Call) and isinstance(c.func, ast.Attribute) and unparse(c.func.value) == x]
+            slow = [c for b in st.orelse for c in ast.walk(b) if isinstance(c, ast.Call) and isinstance(c.func, ast.Attribute) and unparse(c.func.value) == x]
+            for sc_ in slow:
+                m = sc_.func.attr
+                cm = next((f for f in raw_classes[C].body if isinstance(f, ast.FunctionDef) and f.name == m), None) if C in raw_classes else None
+                if cm is None:
+                    continue
+                r = (None, cm)
+                for fc in fast:
+                    h = fc.func.attr
+                    if h == m:
+                        continue
+                    delegates = any(isinstance(c, ast.Call) and isinstance(c.func, ast.Attribute) and c.func.attr == h and unparse(c.func.value) in ('self', C)
+                                    for c in ast.walk(r[1]))
+                    n += 1
+                    ctx.ob('R13.9', f'{oc.name if oc else mod.name}.{fn.name}:{x}.{h}', not delegates,
+                           sample=f'{fn.name}: under isinstance({x}, {C}) calls {x}.{h}(..) where the other branch calls {x}.{m}(..)')
+                    if delegates:
+                        ctx.finding('R13.9', f'{oc.name if oc else mod.name}.{fn.name}:devirtualised:{m}', oc, fc,
+                                    f'under `isinstance({x}, {C})` the helper `{x}.{h}(..)` is called instead of `{x}.{m}(..)`: an updater derived from {C} that overrides '
+                                    f'{m} (another formula, further refusals) is installed but never asked -- unlisted streams are not served by the fallback updater '
+                                    f'that was set (the exact-class test `type({x}) is {C}` would be equivalent)', where=f'{oc.name if oc else mod.name}.{fn.name}', module=mod)
+    ctx.note(f'R13.9: {n} short-cut(s) under an isinstance test examined')
